@@ -172,6 +172,11 @@ package dns
 //@ func (*HIP).parse [C05 C07]
 //@   stored at "rr.HitLength = " hitlen: len(rr.Hit) < 512 ==> value == len(rr.Hit) / 2 [C05]
 //@   stored at "rr.PublicKeyLength = " pklen: len(decodedPK) < 65536 ==> value == len(decodedPK) [C05]
+// a mandatory list names only keys that exist: an unknown name (which svcbStringToKey maps to the reserved key
+// 65535, printed as the empty string) is an error, not a list entry
+//@ func (*SVCBMandatory).parse [C05 C07]
+//@   ensures known: ret0 == nil ==> (forall k in 0..len(s.Code) :: s.Code[k] != 65535) [C05]
+//@   loop 1 invariant known: forall k in 0..len(codes) :: codes[k] != 65535 [C05]
 //@ func (*EUI48).parse [C07]
 //@   loop 1 invariant 0 <= i && i % 2 == 0 && dash * 2 == i
 //@ func (*EUI64).parse [C07]
